@@ -74,6 +74,13 @@ class C07(Prop):
                                     bit = (x >> (len_ - 1 - j)) & 1
                                     bg[g // 8] = (bg[g // 8] & ~(0x80 >> (g % 8))) | ((0x80 >> (g % 8)) if bit else 0)
                                 yield (f"PARSE {kind} {w} {off} {len_} {hx(bg)}", f"parse-all-{kind}{w}", nontrivial)
+                    # cursor already beyond the end of the buffer
+                    if len_ in (1, 8, w):
+                        for nb in (0, 1, 3):
+                            for beyond in (1, 7, 8, 9, 40):
+                                bg = rand_bytes(r, nb)
+                                yield (f"PARSE {kind} {w} {nb * 8 + beyond} {len_} {hx(bg)}", "cursor-beyond-end", True)
+                                yield (f"PUT {kind} {w} {nb * 8 + beyond} {len_} {r.getrandbits(w)} {hx(bg)}", "cursor-beyond-end", True)
                     # overflow path
                     off = r.randrange(24)
                     nbytes = max(0, (off + len_ - 1) // 8)
